@@ -29,6 +29,8 @@ pub enum REvent {
     AddUser { group: usize, key: usize, enabled: bool },
     AddUserAdmin { group: usize, key: usize, enabled: bool },
     AddRight { group: usize, entity: String, own: bool, all: bool },
+    /// a new group created with one right and one user in a single room mutation
+    AddGroupWith { entity: String, own: bool, all: bool, key: usize },
 }
 
 #[derive(Clone, Debug, Serialize, PartialEq, Eq, Hash)]
@@ -53,6 +55,13 @@ pub struct RO {
 }
 impl RO {
     pub fn push(&mut self, e: Entry) {
+        if let REvent::AddGroupWith { entity, own, all, key } = &e.ev {
+            let g = self.groups;
+            self.push(Entry { ev: REvent::AddGroup, by: e.by, date: e.date });
+            self.push(Entry { ev: REvent::AddRight { group: g, entity: entity.clone(), own: *own, all: *all }, by: e.by, date: e.date });
+            self.push(Entry { ev: REvent::AddUser { group: g, key: *key, enabled: true }, by: e.by, date: e.date });
+            return;
+        }
         if let REvent::AddGroup = e.ev {
             self.groups += 1;
         }
@@ -141,7 +150,7 @@ impl RO {
     }
     /// decision matrix used to compare construction paths (C10) and imports (C07)
     pub fn matrix(&self, ticks: &[i64]) -> Vec<String> {
-        let mut m = vec![];
+        let mut m = vec![format!("groups={}", self.groups)];
         for &t in ticks {
             for k in 0..4 {
                 let mut s = format!("t{} k{} adm{} mem{}", t, k, self.is_admin(k, t) as u8, self.member(k, t) as u8);
@@ -171,7 +180,7 @@ pub fn room_matrix(
     ticks: &[i64],
 ) -> Vec<String> {
     use discret::verif::database::room::RightType;
-    let mut m = vec![];
+    let mut m = vec![format!("groups={}", room.authorisations.len())];
     for &t in ticks {
         for k in 0..4 {
             let mut s = format!(
@@ -382,6 +391,11 @@ impl Universe {
                 p.add("k", b64(&self.keys[*key])).unwrap();
                 format!("mutate {{ sys.Room {{ id:$room authorisations:[{{ id:$g user_admin:[{{verif_key:$k enabled:{}}}] }}] }} }}", enabled)
             }
+            REvent::AddGroupWith { entity, own, all, key } => {
+                p.add("e", entity.clone()).unwrap();
+                p.add("k", b64(&self.keys[*key])).unwrap();
+                format!("mutate {{ sys.Room {{ id:$room authorisations:[{{ name:\"gw\" rights:[{{entity:$e mutate_self:{} mutate_all:{}}}] users:[{{verif_key:$k}}] }}] }} }}", own, all)
+            }
             REvent::AddRight { group, entity, own, all } => {
                 p.add("g", b64(&room.groups[*group])).unwrap();
                 p.add("e", entity.clone()).unwrap();
@@ -405,7 +419,7 @@ impl Universe {
         self.peers[by].barrier().await;
         match r {
             Ok(q) => {
-                if let REvent::AddGroup = ev {
+                if matches!(ev, REvent::AddGroup | REvent::AddGroupWith { .. }) {
                     if let Some(auths) = q.mutate_entities[0].sub_nodes.get("authorisations") {
                         room.groups.push(auths[0].node_to_mutate.id);
                     }
